@@ -1035,6 +1035,9 @@ def judge(case, r, kind_at):
                         return ("obs", "bot-intent-$var-dereferences-context-variable")
             return (f"{case['mode']}/{kind}/evaluated", f"template/variable syntax from the LLM was evaluated: {f['found']} in {f['reply'][:80]!r}")
         if f["kind"] == "raised":
+            if f.get("where", "").startswith("serialization.py"):
+                # the state reached cannot be serialised: the defect class does not depend on the call position
+                kind = "state-serialisation"
             return (f"{case['mode']}/{kind}/raised:{f['exc']}@{f['fn']}", f"generate raised {f['exc']} in {f['fn']} ({f['where']}): {f['msg'][:120]}")
         if f["kind"] == "malformed":
             return (f"{case['mode']}/{kind}/malformed-reply", f["why"])
